@@ -5,6 +5,7 @@ package c07
 import (
 	"bytes"
 	"context"
+	"database/sql"
 	"crypto/sha256"
 	"encoding/json"
 	"fmt"
@@ -12,6 +13,7 @@ import (
 	"log/slog"
 	"math/rand"
 	"os"
+	"path/filepath"
 	"strings"
 	"time"
 
@@ -21,6 +23,7 @@ import (
 
 	"verif/harness/internal/hist"
 	"verif/harness/internal/oracle"
+	"verif/harness/internal/sq"
 	"verif/harness/internal/vf"
 )
 
@@ -34,13 +37,88 @@ type spec struct {
 	L0RetMin int         `json:"l0_ret_min"`
 	SnRetMin int         `json:"snap_ret_min"`
 	OldPct   int         `json:"old_pct"` // share of planted ages on the old side of the threshold
+	// Twin (store mode): the Store manages a second database whose file has the same base name
+	// in another directory and whose replica is far ahead in TXIDs; its retention pass runs
+	// right before every Store retention pass of the database under observation
+	Twin bool `json:"twin,omitempty"`
+}
+
+// twin is the second database of a Store (same file name, other directory, own replica).
+type twin struct {
+	db  *litestream.DB
+	app *sql.DB
+	rep string
+	n   int
+}
+
+func (st *state) startTwin(dir string) error {
+	e := st.e
+	tdir := filepath.Join(dir, "twin")
+	if err := os.MkdirAll(tdir, 0o755); err != nil {
+		return err
+	}
+	path := filepath.Join(tdir, filepath.Base(e.DBPath))
+	app, err := sq.Create(path, 4096, 0)
+	if err != nil {
+		return err
+	}
+	if _, err := app.Exec(`CREATE TABLE tw(id INTEGER PRIMARY KEY, v BLOB)`); err != nil {
+		return err
+	}
+	db := litestream.NewDB(path)
+	db.MonitorInterval = 0
+	db.ShutdownSyncTimeout = 0
+	db.BusyTimeout = 20 * time.Millisecond
+	db.Logger = slog.New(e.Logs)
+	db.L0Retention = st.l0Ret
+	db.RetentionEnabled = st.s.Enabled
+	t := &twin{db: db, app: app, rep: filepath.Join(dir, "twin-rep")}
+	fc := file.NewReplicaClient(t.rep)
+	db.Replica = litestream.NewReplicaWithClient(db, fc)
+	db.Replica.MonitorEnabled = false
+	fc.Replica = db.Replica
+	if err := st.dmn.Store.RegisterDB(db); err != nil {
+		return err
+	}
+	st.twin = t
+	// far ahead of anything the observed database reaches (it runs < 60 operations)
+	if err := st.twinAdvance(150, true); err != nil {
+		return err
+	}
+	return st.twinAdvance(4, true)
+}
+
+// twinAdvance commits and replicates n transactions on the twin, optionally takes a
+// snapshot and compacts, and makes every file of the twin's replica look older than all thresholds.
+func (st *state) twinAdvance(n int, snapshot bool) error {
+	t := st.twin
+	ctx := st.e.Ctx
+	for i := 0; i < n; i++ {
+		t.n++
+		if _, err := t.app.Exec(`INSERT INTO tw(v) VALUES(?)`, []byte(fmt.Sprintf("twin-%d", t.n))); err != nil {
+			return fmt.Errorf("twin write: %w", err)
+		}
+		if err := t.db.SyncAndWait(ctx); err != nil {
+			return fmt.Errorf("twin SyncAndWait: %w", err)
+		}
+	}
+	if snapshot {
+		if _, err := t.db.Snapshot(ctx); err != nil {
+			return fmt.Errorf("twin Snapshot: %w", err)
+		}
+	}
+	old := time.Now().Add(-(st.snRet + st.l0Ret + 96*time.Hour))
+	for _, f := range oracle.ListAll(t.rep) {
+		_ = os.Chtimes(f.Path, old, old)
+	}
+	return nil
 }
 
 func init() {
 	vf.Register(&vf.Check{
 		ID:    "C07",
 		Level: "exploration",
-		Rule: "generated histories over {app writes (growth, shrink + VACUUM), SyncAndWait, DB.Compact(level) / Store.CompactDB, Snapshot, retention passes} in three modes: db (DB.EnforceSnapshotRetention(explicit cut-off) + cascade EnforceRetentionByTXID over all levels, DB.EnforceL0RetentionByTime, the L0 pass inside DB.Compact(1)), store (Store.EnforceSnapshotRetention, Store.SetRetentionEnabled toggles), compactor (a stand-alone litestream.Compactor on the replica as the VFS uses it: EnforceSnapshotRetention(duration), EnforceL0Retention, EnforceRetentionByTXID); RetentionEnabled in {true,false}; direct EnforceRetentionByTXID(level 0..L, floor) with floor <= newest snapshot MaxTXID+1 (0/1 when no snapshot exists). " +
+		Rule: "generated histories over {app writes (growth, shrink + VACUUM), SyncAndWait, DB.Compact(level) / Store.CompactDB, Snapshot, retention passes} in three modes: db (DB.EnforceSnapshotRetention(explicit cut-off) + cascade EnforceRetentionByTXID over all levels, DB.EnforceL0RetentionByTime, the L0 pass inside DB.Compact(1)), store (Store.EnforceSnapshotRetention, Store.SetRetentionEnabled toggles; in half of these histories the Store also manages a second database with the same file name in another directory whose replica is 150+ TXIDs ahead and whose retention pass runs right before each pass of the observed database), compactor (a stand-alone litestream.Compactor on the replica as the VFS uses it: EnforceSnapshotRetention(duration), EnforceL0Retention, EnforceRetentionByTXID); RetentionEnabled in {true,false}; direct EnforceRetentionByTXID(level 0..L, floor) with floor <= newest snapshot MaxTXID+1 (0/1 when no snapshot exists). " +
 			"File ages are planted: every file that appears on the replica (and its local copy) gets mtime = now - (threshold +/- {10 min, 2 h, 3 d}) by PRNG, thresholds (L0Retention, SnapshotRetention) >= 1 h, re-planted at random before passes, so newer TXIDs can look older. Level-0 files are archived when they appear. " +
 			"After every pass: a snapshot existed before => one remains; surviving level-0 files are one contiguous run ending at the newest level-0 TXID; Restore(latest) through a plain file client == image of the newest archived TXID; then write + SyncAndWait must succeed and the restored bytes == checkpointed source copy. " +
 			"distinct = hash(config, mode, op sequence); non-trivial = >=2 passes that removed replica files (RetentionEnabled=false histories: >=3 passes that removed local files or none remotely) with >=1 snapshot present",
@@ -78,6 +156,7 @@ func cases(run *vf.Run) ([]json.RawMessage, error) {
 			SnRetMin: []int{60, 26 * 60, 5 * 24 * 60}[rng.Intn(3)],
 			OldPct:   []int{50, 75, 90}[rng.Intn(3)],
 		}
+		s.Twin = s.Mode == "store" && i%2 == 1
 		out = append(out, vf.Spec(s))
 	}
 	return out, nil
@@ -96,6 +175,7 @@ type state struct {
 	l0Ret   time.Duration
 	snRet   time.Duration
 
+	twin      *twin
 	planted   map[string]bool
 	passes    int
 	delPasses int // passes that removed replica files
@@ -150,6 +230,13 @@ func runCase(run *vf.Run, raw json.RawMessage, dir string) *vf.Result {
 			cancel()
 		}
 	}()
+	if s.Twin && st.dmn != nil {
+		if err := st.startTwin(dir); err != nil {
+			res.HarnessErr = "twin database: " + err.Error()
+			return res
+		}
+		defer st.twin.app.Close()
+	}
 	if s.Mode == "compactor" {
 		// what the VFS does: a Compactor that only knows the replica client
 		st.comp = litestream.NewCompactor(file.NewReplicaClient(e.RepPath), slog.New(slog.NewTextHandler(io.Discard, nil)))
@@ -438,6 +525,15 @@ func (st *state) retentionPass(ctx context.Context, i int) (kind string, violate
 			}
 		case st.dmn != nil:
 			kind = "store-snapshot-retention"
+			if st.twin != nil {
+				if terr := st.twinAdvance(2, true); terr != nil {
+					return "", false, terr
+				}
+				terr := st.dmn.Store.EnforceSnapshotRetention(ctx, st.twin.db)
+				e.Logf("Store.EnforceSnapshotRetention(twin database, replica max %d) err=%v", oracle.MaxTXID(st.twin.rep), terr)
+				res.Count("twin_retention_passes", 1)
+				kind = "store-snapshot-retention(after twin)"
+			}
 			err = st.dmn.Store.EnforceSnapshotRetention(ctx, e.LS)
 		default:
 			kind = "db-snapshot-retention+cascade"
